@@ -164,17 +164,18 @@ func c01Engine(c *Ctx) (*slicefx.Engine, slicefx.OrderConfig) {
 	// contains the limit (C05 O-1), and every Put site is checked separately
 	// (c01CachePuts) to store only lists bounded by that limit and sorted.
 	eng.BoundCall = func(bc *slicefx.BCtx, call *ssa.Call, idx int) (slicefx.Bounds, bool) {
-		if ssau.CallName(call) != cacheGet || idx != 0 {
+		acc, isCache := cacheOp(call)
+		if !isCache || acc.kind != "get" || idx != 0 {
 			return slicefx.Bounds{}, false
 		}
-		lim := bc.FieldOf(call.Common().Args[2], "Limit")
+		lim := bc.FieldOf(acc.options, "Limit")
 		if lim == nil {
 			return slicefx.Bounds{Why: "the cache options passed to Get have no resolvable Limit"}, true
 		}
 		return slicefx.LimitBound(bc, lim), true
 	}
 	eng.SortedCall = func(call *ssa.Call, idx int) (bool, bool) {
-		if ssau.CallName(call) == cacheGet {
+		if acc, isCache := cacheOp(call); isCache && acc.kind == "get" {
 			return true, true
 		}
 		return false, false
@@ -207,10 +208,11 @@ func c01CachePuts(c *Ctx, eng *slicefx.Engine, cfg slicefx.OrderConfig) {
 		if pk := c.P.PkgOfFunc(fn); pk != nil && pk.PkgPath == cachePkg {
 			continue
 		}
-		for _, call := range callsTo(fn, cachePut) {
+		for _, call := range cacheOpsIn(fn, "put") {
 			n++
 			key := fmt.Sprintf("%s#cache-put-%d", load.FuncKey(fn), n)
-			args := call.Common().Args
+			acc, _ := cacheOp(call)
+			args := []ssa.Value{nil, acc.query, acc.options, acc.list}
 			b := eng.BoundsOf(fn, args[3])
 			// the Limit stored in the cache options
 			_ = eng.Sx.Of(fn)
